@@ -262,9 +262,9 @@ where
             matrix_set(matrix, i, j, v);
         }
 
-        // Squared norm - use safe conversion
-        let norm_sq = squared_norm(coords);
-        let norm_sq_f64 = safe_scalar_to_f64(norm_sq)?;
+        // Squared norm in f64 (a norm computed in a narrower `T` would be rounded to T's
+        // precision and can flip the sign of the determinant)
+        let norm_sq_f64 = safe_scalar_to_f64(squared_norm(&coords_f64))?;
         matrix_set(matrix, i, D, norm_sq_f64);
 
         // Constant term
@@ -279,8 +279,7 @@ where
         matrix_set(matrix, D + 1, j, v);
     }
 
-    let test_norm_sq = squared_norm(test_coords);
-    let test_norm_sq_f64 = safe_scalar_to_f64(test_norm_sq)?;
+    let test_norm_sq_f64 = safe_scalar_to_f64(squared_norm(&test_coords_f64))?;
     matrix_set(matrix, D + 1, D, test_norm_sq_f64);
     matrix_set(matrix, D + 1, D + 1, 1.0);
 
